@@ -30,6 +30,17 @@ type tierSpec struct {
 	Bounds        string   `json:"bounds"`
 	NoSleepSets   bool     `json:"no_sleep_sets"`
 	CrossSolvers  []string `json:"cross_solvers"` // re-explore with these solvers and require identical verdicts
+	// per-harness scheduler overrides
+	HarnessOpts map[string]harnessOpt `json:"harness_opts"`
+}
+
+// harnessOpt overrides the tier's scheduler settings for one harness.
+type harnessOpt struct {
+	// DelayBound >= 0: delay-bounded exploration (every schedule that deviates
+	// at most DelayBound times from the reference order; no sleep sets)
+	DelayBound *int `json:"delay_bound"`
+	GoOrder    bool `json:"go_order"` // reference order = single-P Go runtime (runnext, then FIFO)
+	MaxPaths   int  `json:"max_paths"`
 }
 
 // violation filter: a rig shared by several properties labels its assertions
@@ -178,7 +189,7 @@ func cmdCheck(args []string) int {
 	}
 	cfg := interp.Config{Workers: *workers, ConcretizeCap: ts.CCap, PreemptionBound: pb, MaxSteps: ts.Steps,
 		MaxConcreteAlloc: 1 << 22, MaxPaths: ts.MaxPaths, RaceDetect: !ts.NoRace,
-		QueryTimeout: time.Duration(ts.QueryTimeoutS) * time.Second, Seed: seed, KeepSamples: 4000, SleepSets: !ts.NoSleepSets,
+		QueryTimeout: time.Duration(ts.QueryTimeoutS) * time.Second, Seed: seed, KeepSamples: 4000, SleepSets: !ts.NoSleepSets, DelayBound: -1,
 		Deadline: t0.Add(time.Duration(ts.TimeoutS) * time.Second)}
 	e, s, err := loadEngine(*verif, *repo, []string{spec.Pkg}, cfg)
 	if err != nil {
@@ -196,7 +207,30 @@ func cmdCheck(args []string) int {
 			inconclusive = append(inconclusive, err.Error())
 			continue
 		}
+		baseCfg := e.Cfg
+		hcfg := baseCfg
+		if ho, ok := ts.HarnessOpts[h]; ok {
+			if ho.DelayBound != nil {
+				hcfg.DelayBound = *ho.DelayBound
+				hcfg.SleepSets = false
+				hcfg.PreemptionBound = -1
+			}
+			hcfg.GoOrder = ho.GoOrder
+			if ho.MaxPaths > 0 {
+				hcfg.MaxPaths = ho.MaxPaths
+			}
+		}
+		e.Cfg = hcfg
+		switch {
+		case hcfg.DelayBound >= 0:
+			harnessSched[h] = fmt.Sprintf("delay-bounded: every schedule within %d deviations from the reference order (go_order=%v), no partial-order reduction", hcfg.DelayBound, hcfg.GoOrder)
+		case hcfg.SleepSets:
+			harnessSched[h] = fmt.Sprintf("all schedules up to sleep-set reduction, preemption bound %d (-1 = unbounded)", hcfg.PreemptionBound)
+		default:
+			harnessSched[h] = fmt.Sprintf("all interleavings of visible operations, preemption bound %d (-1 = unbounded)", hcfg.PreemptionBound)
+		}
 		res := e.Explore(entry)
+		e.Cfg = baseCfg
 		results = append(results, res)
 		printResult(res)
 		if res.Status["inconclusive"] > 0 {
@@ -360,6 +394,10 @@ func cmdCheck(args []string) int {
 	violations := 0
 	knownHits := map[string]bool{}
 	n := 0
+	// many schedules or inputs usually reach the same failure: at most three
+	// replays per (harness, kind, site) are written and printed
+	perSite := map[string]int{}
+	suppressed := 0
 	for _, cv := range confirmed {
 		for i := range known {
 			if known[i].matches(spec.ID, cv.Harness, cv.V) {
@@ -392,13 +430,31 @@ func cmdCheck(args []string) int {
 			}
 			continue
 		}
+		siteKey := cv.Harness + "|" + cv.V.Kind + "|" + cv.V.Site
+		if cv.V.Kind == "assert" {
+			siteKey += "|" + cv.V.Label
+		}
+		perSite[siteKey]++
+		if perSite[siteKey] > 3 {
+			suppressed++
+			violations++
+			continue
+		}
 		n++
 		dir := filepath.Join(replayRoot, strconv.Itoa(n))
 		writeReplay(dir, *verif, &spec, cv)
 		cv.Replay = dir
 		violations++
 		fmt.Printf("VIOLATION property=%s replay=%s\n", spec.ID, dir)
-		fmt.Printf("  harness=%s kind=%s label=%q site=%s native=%s\n", cv.Harness, cv.V.Kind, cv.V.Label, cv.V.Site, cv.Native)
+		lbl := cv.V.Label
+		if len(lbl) > 300 {
+			lbl = lbl[:300] + "..."
+		}
+		fmt.Printf("  harness=%s kind=%s label=%q site=%s native=%s\n", cv.Harness, cv.V.Kind, lbl, cv.V.Site, cv.Native)
+	}
+
+	if suppressed > 0 {
+		fmt.Printf("note: %d further counterexamples at the same sites are not listed (three per harness, kind and site are)\n", suppressed)
 	}
 
 	// ---- path-model differential ----------------------------------------------------------
@@ -465,6 +521,7 @@ func cmdCheck(args []string) int {
 }
 
 var lastCrossNotes []string
+var harnessSched = map[string]string{}
 
 func knownHitList(m map[string]bool) []string {
 	var out []string
@@ -576,7 +633,7 @@ func writeEvidence(verifDir string, spec *checkSpec, tier string, seed int64, re
 		perHarness = append(perHarness, map[string]interface{}{
 			"harness": r.Harness, "paths": r.Paths, "status": r.Status, "forks": r.Forks, "schedule_switches": r.Switches,
 			"ssa_steps": r.Steps, "max_steps_per_path": r.MaxSteps, "max_goroutines": r.MaxGoroutines,
-			"asserts_evaluated": r.Asserts, "wall_s": r.Wall.Seconds(),
+			"asserts_evaluated": r.Asserts, "wall_s": r.Wall.Seconds(), "scheduler": harnessSched[r.Harness],
 		})
 	}
 	if transitions == 0 {
